@@ -18,6 +18,7 @@ class Built:
         self.siglines = {}  # src -> [Line] all lines that carry the signal (stem, branches)
         self.stemline = {}  # src -> Line leaving the driver
         self.line_src = {}  # line index -> src
+        self.flt = []       # lines from undriven forks (floating nets, constant 0) to operand pins
 
     def s_order(self):
         """the documented order of the rows of `s`: ports as listed in io_nodes, then all flip-flops, then all latches. Ports and the two groups
@@ -154,6 +155,20 @@ def build(nl, name='top'):
         b.siglines[src] = lines
         for l in lines:
             b.line_src[l.index] = src
+    # floating nets ------------------------------------------------------------------------------
+    if nl.get('flt'):
+        shared = None
+        for k, g in enumerate(nl['g']):
+            n_op = rm.arity(g['f'], g['i'])
+            for j in range(n_op):
+                if j >= len(g['i']) or g['i'][j] is None:
+                    if nl['flt'] == 2:
+                        shared = shared or Node(c, 'floatnet')
+                        ff = shared
+                    else:
+                        ff = Node(c, f'floatnet{k}_{j}')
+                    b.flt.append(Line(c, ff, (b.g[k], j)))
+                    b.line_src[b.flt[-1].index] = 'zero'         # carries the constant 0
     # ports ------------------------------------------------------------------------------------
     target = [b.pi[int(label[1:])] if label[0] == 'i' else b.po[int(label[1:])] for label in nl['ports']]
     if nl.get('peek') and len(target) > 1:
